@@ -9,7 +9,7 @@ def unsafe_decode(string):
   return string
 
 def validate_encoded(string):
-  if not re.match("^[ !-~]+$", string):
+  if not re.match(r"^[ !-~]+\Z", string):
     raise gfapy.FormatError(
       "{} is not a valid string field\n".format(repr(string))+
       "(it contains newlines/tabs and/or non-printable characters)")
